@@ -167,7 +167,19 @@ func genCuts(r *Rng, n int) []int {
 	switch r.Intn(8) {
 	case 0, 1:
 		return nil // whole
-	case 2: // octet by octet
+	case 2: // octet by octet (long frames: the first 40 octets, then larger pieces — the model evaluates every Read)
+		if n > 1500 {
+			c := make([]int, 40)
+			for i := range c {
+				c[i] = 1
+			}
+			for left := n - 40; left > 0; {
+				k := 1 + r.Intn(min(left, 700))
+				c = append(c, k)
+				left -= k
+			}
+			return c
+		}
 		c := make([]int, n)
 		for i := range c {
 			c[i] = 1
@@ -240,8 +252,9 @@ var connVariant = func() string {
 }()
 
 // confirmed runs one forced scenario; if it records a direct failure the same
-// scenario (same random choices) is run once more and only a failure that
-// shows again is kept.  Forced schedules are deterministic, so a defect
+// scenario (same random choices) is run again, and a third time with every
+// wall-clock bound of the harness five times as wide; only a failure that shows
+// in all three runs is kept.  Forced schedules are deterministic, so a defect
 // reproduces; a hiccup of a heavily loaded machine (a goroutine not scheduled
 // for a second while "promptly" is being measured) does not.
 func confirmed(r *Run, scenario func()) {
@@ -251,27 +264,43 @@ func confirmed(r *Run, scenario func()) {
 	for k, v := range r.failSeen {
 		seen[k] = v
 	}
+	rollback := func() {
+		*r.Rng = rng
+		r.Failures = r.Failures[:nFail]
+		r.caseExprs, r.caseDescs = r.caseExprs[:nCase], r.caseDescs[:nCase]
+		r.Evaluations = nEval
+		r.failSeen = map[string]int{}
+		for k, v := range seen {
+			r.failSeen[k] = v
+		}
+	}
 	scenario()
 	if sameCounts(seen, r.failSeen) {
 		return
 	}
 	first := append([]Failure(nil), r.Failures[nFail:]...)
-	// roll back and run again
-	*r.Rng = rng
-	r.Failures = r.Failures[:nFail]
-	r.caseExprs, r.caseDescs = r.caseExprs[:nCase], r.caseDescs[:nCase]
-	r.Evaluations = nEval
-	r.failSeen = map[string]int{}
-	for k, v := range seen {
-		r.failSeen[k] = v
-	}
-	scenario()
-	if sameCounts(seen, r.failSeen) {
+	note := func(which string) {
 		cls := ""
 		if len(first) > 0 {
 			cls = first[0].Class + ": " + head(first[0].Observed, 160)
 		}
-		r.Notes = append(r.Notes, "a failure did not reproduce on the immediate re-run of the same schedule (machine load?): "+cls)
+		r.Notes = append(r.Notes, "a failure did not reproduce on "+which+" of the same schedule (machine load?): "+cls)
+	}
+	rollback()
+	scenario()
+	if sameCounts(seen, r.failSeen) {
+		note("the immediate re-run")
+		return
+	}
+	if relaxed {
+		return // already running with wide bounds
+	}
+	rollback()
+	setRelaxed(true)
+	scenario()
+	setRelaxed(false)
+	if sameCounts(seen, r.failSeen) {
+		note("the third run (wall-clock bounds five times as wide)")
 	}
 }
 
